@@ -57,10 +57,10 @@ TRUSTED = [
     "modelled, not verified: a stream that meets EOF or an I/O error closes itself and raises EOFError "
     "(rpyc/core/stream.py: SocketStream/PipeStream read/write; exercised, not modelled, by the real-transport runs); "
     "rpyc/lib/compat.py PollingPoll mask handling (decides whether end-of-stream is noticed at all) likewise",
-    "four facts about the code are measured by harness/gen_proto.py on the live classes and enter the model as "
+    "five facts about the code are measured by harness/gen_proto.py on the live classes and enter the model as "
     "generated constants with named proof obligations (restated in the audited namespace as obligation_*): "
     "cleanup_idempotent, cleanup_survives_channel_close_error (all three tables; raising hook; raising before_closed), "
-    "dispatch_closes_on_eof, box_refuses_on_closed_channel (and C08's decode_guarded); the shapes of "
+    "dispatch_closes_on_eof, box_refuses_on_closed_channel, cleanup_fails_pending (and C08's decode_guarded); the shapes of "
     "close/_cleanup/serve are otherwise tied to the source by the behavioural correspondence only; the harness wraps "
     "Connection._dispatch during a run (observation only) to know which writes happen inside the delivery of a response",
     "two threads racing close() against a received close: covered as the orders of the events (sequential automaton); "
@@ -97,8 +97,11 @@ EXPLANATION = ("Theorems over ALL finite event sequences of the lifecycle automa
                "serve() (blocked_waiter_next_serve_releases); no requester is ever given a value the peer did not write "
                "(two-sided: value_was_written_by_peer); after the end no event gives a value or blocks anybody, pending "
                "and new requests fail at once; on the pair, a closed side ends its peer within (frames in flight + 1) "
-               "serve() calls (assuming the channel law: poll() wakes at end-of-stream). Not looked at: `ready`/`error`/"
-               "add_callback of a result still pending at the end (they are never completed: probed, reported).")
+               "serve() calls (assuming the channel law: poll() wakes at end-of-stream). On a side that reports closed "
+               "every result is ready: a request still pending was completed with EOFError by _cleanup (ready, error, "
+               "callbacks run: pending_results_ready_after_end, obligation_cleanup_fails_pending measured; "
+               "unrepaired_pending_never_ready is the code before the repair); a result whose own timeout had passed "
+               "stays 'expired' by AsyncResult's own rule (not modelled).")
 
 VAL_REF, VAL_EXC, VAL_OTHER = 1, 2, 3
 
